@@ -81,6 +81,9 @@ def to_camel_case(string: str) -> str:
     string = replace_multi_with_single(
         string.replace('-', '_').replace(' ', '_'))
 
+    if not string:
+        return string
+
     return string[0].lower() + re.sub(
         r"(?:_)(.)", lambda m: m.group(1).upper(), string[1:])
 
@@ -97,6 +100,9 @@ def to_pascal_case(string):
     """
     string = replace_multi_with_single(
         string.replace('-', '_').replace(' ', '_'))
+
+    if not string:
+        return string
 
     return string[0].upper() + re.sub(
         r"(?:_)(.)", lambda m: m.group(1).upper(), string[1:])
